@@ -194,12 +194,24 @@ class RiscvArch(Architecture):
             else:
                 return Movr(dst, src, ismove=True)
 
-    def gen_riscv_memcpy(self, dst, src, tmp, size):
+    def gen_riscv_memcpy(self, dst, src, tmp, size, new_reg):
         # Called before register allocation
         # Major crappy memcpy, can be improved!
-        for idx in range(size):
-            yield Lb(tmp, idx, src)
-            yield Sb(tmp, idx, dst)
+        # The offset of lb / sb is a signed 12 bit value, so copy in chunks
+        # of 2048 bytes, each chunk with base registers of its own:
+        chunk = 2048
+        for start in range(0, size, chunk):
+            if start:
+                next_dst = new_reg(RiscvRegister)
+                next_src = new_reg(RiscvRegister)
+                yield instructions.Addi(next_dst, dst, chunk - 1)
+                yield instructions.Addi(next_dst, next_dst, 1)
+                yield instructions.Addi(next_src, src, chunk - 1)
+                yield instructions.Addi(next_src, next_src, 1)
+                dst, src = next_dst, next_src
+            for idx in range(min(chunk, size - start)):
+                yield Lb(tmp, idx, src)
+                yield Sb(tmp, idx, dst)
 
     def peephole(self, frame):
         """Resolve the offsets of frame locations.
@@ -267,7 +279,9 @@ class RiscvArch(Architecture):
                         self.fp,
                         arg.offset + round_up(frame.stacksize + 8) - 8,
                     )
-                    yield from self.gen_riscv_memcpy(p1, p2, v3, arg.size)
+                    yield from self.gen_riscv_memcpy(
+                        p1, p2, v3, arg.size, frame.new_reg
+                    )
             else:  # pragma: no cover
                 raise NotImplementedError("Parameters in memory not impl")
 
